@@ -29,6 +29,9 @@ type uDep struct {
 type uVer struct {
 	V    string `json:"v"`
 	Tag  string `json:"tag,omitempty"`
+	// Unlisted: the registry serves the version when asked for it (Version, Requirements) but does not list
+	// it (Versions, MatchingVersions) - a Maven artifact missing from maven-metadata.xml.
+	Unlisted bool `json:"unlisted,omitempty"`
 	Deps []uDep `json:"deps,omitempty"`
 }
 type uPkg struct {
@@ -64,7 +67,15 @@ func (u *universe) client() (resolve.Client, error) {
 	if err != nil {
 		return nil, err
 	}
-	return safeClient{lc: sch.NewClient()}, nil
+	hidden := map[resolve.VersionKey]bool{}
+	for _, p := range u.Pkgs {
+		for _, v := range p.Versions {
+			if v.Unlisted {
+				hidden[resolve.VersionKey{PackageKey: resolve.PackageKey{System: u.Sys, Name: p.Name}, VersionType: resolve.Concrete, Version: v.V}] = true
+			}
+		}
+	}
+	return safeClient{lc: sch.NewClient(), hidden: hidden}, nil
 }
 
 func (u *universe) pkg(name string) *uPkg {
@@ -81,9 +92,11 @@ func (u *universe) versionStrings(name string) []string {
 	if p == nil {
 		return nil
 	}
-	out := make([]string, len(p.Versions))
-	for i, v := range p.Versions {
-		out[i] = v.V
+	var out []string
+	for _, v := range p.Versions {
+		if !v.Unlisted {
+			out = append(out, v.V)
+		}
 	}
 	return out
 }
@@ -100,10 +113,14 @@ func genVersions(r *rand.Rand, sys resolve.System, n int) []string {
 	var out []string
 	baseMaj := r.Intn(3)
 	span := 1 + r.Intn(3)
-	for tries := 0; len(out) < n && tries < 400; tries++ {
+	nmin, npat := 3, 4
+	if n > 12 {
+		span, nmin, npat = 3, 4, 5
+	}
+	for tries := 0; len(out) < n && tries < 2000; tries++ {
 		maj := baseMaj + r.Intn(span)
-		min := r.Intn(3)
-		pat := r.Intn(4)
+		min := r.Intn(nmin)
+		pat := r.Intn(npat)
 		var s string
 		if sys == resolve.NPM {
 			s = fmt.Sprintf("%d.%d.%d%s", maj, min, pat, pick(r, npmPre))
@@ -120,12 +137,35 @@ func genVersions(r *rand.Rand, sys resolve.System, n int) []string {
 				s = fmt.Sprintf("%d.%d.%d%s", maj, min, pat, pick(r, mavenQual))
 			}
 		}
-		if !seen[s] {
-			seen[s] = true
-			out = append(out, s)
+		if seen[s] {
+			continue
 		}
+		if n > 12 {
+			// above 12 elements slices.SortFunc is an unstable pdqsort: the sorted result is only
+			// determined when no two versions compare equal (sort_unique_on_distinct)
+			dup := false
+			for _, o := range out {
+				dup = dup || sys.Semver().Compare(o, s) == 0
+			}
+			if dup {
+				continue
+			}
+		}
+		seen[s] = true
+		out = append(out, s)
 	}
 	return out
+}
+
+// genCount draws the number of versions of a package: mostly 1..12, sometimes up to 30.
+func genCount(r *rand.Rand) int {
+	switch k := r.Intn(20); {
+	case k < 3:
+		return 13 + r.Intn(18)
+	case k < 7:
+		return 1 + r.Intn(3)
+	}
+	return 1 + r.Intn(12)
 }
 
 // genReq draws a requirement on a package given its versions: pinned, range or tag.
@@ -191,11 +231,7 @@ func genUniverse(r *rand.Rand, sys resolve.System) *universe {
 	np := 2 + r.Intn(6)
 	vers := make([][]string, np)
 	for i := 0; i < np; i++ {
-		n := 1 + r.Intn(12)
-		if r.Intn(4) == 0 {
-			n = 1 + r.Intn(3)
-		}
-		vers[i] = genVersions(r, sys, n)
+		vers[i] = genVersions(r, sys, genCount(r))
 	}
 	for i := 0; i < np; i++ {
 		p := uPkg{Name: pkgName(sys, i)}
